@@ -276,8 +276,40 @@ pub fn specs(tier: &str) -> Vec<ExpSpec> {
             Op::CreateFile { base: r, path: format!("d/{}", "n".repeat(200)), keep: None },
             Op::CreateDir { base: r, path: format!("d/{}", "k".repeat(200)), keep: None },
             Op::Rename { base: r, src: "f".into(), dst_base: r, dst: format!("d/{}", "r".repeat(200)) },
+            // existing entries that live in the SECOND cluster of the directory (the seek of
+            // remove / rename to the entry set walks the FAT), and a growth of the full two-cluster directory that
+            // succeeds (the seek back to the first new slot walks the FAT)
+            Op::Remove { base: r, path: "d/long-n-15.txt".into() },
+            Op::Rename { base: r, src: "d/long-n-14.txt".into(), dst_base: r, dst: "out.txt".into() },
+            Op::Rename { base: r, src: "d/long-n-13.txt".into(), dst_base: r, dst: "d/long-n-99.txt".into() },
+            Op::OpenFile { base: r, path: "d/long-n-15.txt".into(), keep: None },
+            Op::CreateFile { base: r, path: "d/y".into(), keep: None },
+            Op::CreateDir { base: r, path: "d/e".into(), keep: None },
+            Op::List { base: r, path: "d".into() },
         ];
         v.push(ExpSpec::new(c, alpha, 1).with_prefix(pfx));
+        // file handles on a volume whose status byte is still clean in memory (remount, then open):
+        // the first change of the session comes from a call on the handle (write / truncate raise the flag themselves)
+        for ft in [FatType::Fat12, FatType::Fat32] {
+            let mut c = vol::tiny_with(ft, 12, 16);
+            c.name = format!("{}-clean-volume-open-handle", if ft == FatType::Fat12 { "t12" } else { "t32" });
+            let pfx = vec![
+                Op::CreateFile { base: r, path: "f".into(), keep: Some(0) },
+                Op::WriteAll { h: 0, len: 3 * 512 },
+                Op::Remount,
+                Op::OpenFile { base: r, path: "f".into(), keep: Some(0) },
+                Op::Seek { h: 0, pos: SeekSpec::Start(512 + 1) },
+            ];
+            let alpha = vec![
+                Op::Truncate { h: 0 },
+                Op::Write { h: 0, len: 1 },
+                Op::WriteAll { h: 0, len: 2 * 512 + 1 },
+                Op::Read { h: 0, len: 512 + 1 },
+                Op::Flush { h: 0 },
+                Op::Seek { h: 0, pos: SeekSpec::Start(0) },
+            ];
+            v.push(ExpSpec::new(c, alpha, 2).with_prefix(pfx));
+        }
         // full 16-slot root, free clusters left
         let mut c = vol::tiny_with(FatType::Fat12, 12, 16);
         c.name = "t12-full-root".into();
